@@ -1,5 +1,6 @@
 import TakVerif.Proofs.BookLegal
 import TakVerif.Proofs.PosFactsInst
+import TakVerif.Proofs.ImageFact
 
 /-!
 # C04 (opening-book clause) — book moves are legal in the position they are looked up for
@@ -75,19 +76,35 @@ theorem book_answers_images {basis : Array W} {size : Nat} {Inv : Pos → Prop} 
       (fun c hc => (hall c hc).1) (by simpa using hsmall e1 he1)
     exact ⟨m, by simp [Book.getMove, hf, hm, bind, Except.bind, pure, Except.pure]⟩
 
-/-- **For the default games up to 6×6 `PosFacts` and `LinesOk` are theorems** (from `C01.move_refines`, the piece
-budget ≤ 62 and `C02`'s `analyze_ne_none`; book lines never contain the internal pass move — `ptn.ParseMove`
-cannot produce it): the stored replies are legal and `GetMove` answers legally, assuming only that the rebuilt
-images show the images (`ImageFact`, exercised by the `ssyms` op) and the absence of collisions. -/
+/-- **For the default games up to 6×6 every hypothesis but the absence of collisions is a theorem.**
+`PosFacts` holds for `InvD basis` — C01's `WF basis`, piece budget ≤ 64, the configuration `New` stores,
+conservation of pieces — by `C01.move_refines`, `C01_spec.step_conserves` and C02's `analyze_ne_none`
+(`Tak.posFacts2_defaultD`); `ImageFact` by `Tak.imageFact_invD` (the C10 package's reading of `FromSquares`);
+`LinesOk` because book lines never contain the internal pass move (`ptn.ParseMove` cannot produce it).
+So: in a book built without error from pass-free lines, whenever `GetMove` answers for a position that does not
+collide with a different stored image, the move is legal there. -/
 theorem book_moves_legal_default (basis : Array W) {size : Nat} (hs : size ≤ 6)
-    (himg : ImageFact basis (InvB basis)) {lines : List (List Tak.Move)}
-    (hnp : ∀ line ∈ lines, ∀ m ∈ line, m.type ≠ Facts.mtPass) {book : Book}
+    {lines : List (List Tak.Move)} (hnp : ∀ line ∈ lines, ∀ m ∈ line, m.type ≠ Facts.mtPass) {book : Book}
     (hb : buildOpeningBook basis size lines = .ok book)
     (q : Pos) (rnd : Nat → Nat → Nat) (hr : ∀ i n, 0 < n → rnd i n < n)
     (hnc : ∀ q₀, BookImg basis size lines q₀ → q₀.hashOf = q.hashOf → Spec.abs q₀ = Spec.abs q)
     (m : Tak.Move) (h : book.getMove q rnd = .ok (some m)) : SLegal q m :=
-  book_moves_legal (posFacts2_default basis size hs).toPosFacts himg
-    (linesOk_default basis size hs lines hnp) hb q rnd hr hnc m h
+  book_moves_legal (posFacts2_defaultD basis size hs).toPosFacts (imageFact_invD basis)
+    (linesOk_of (posFacts2_defaultD basis size hs).toPosFacts
+      (fun _ m hi hm => ⟨hm, stackLimit_of_budget m hi.2.1⟩) lines hnp) hb q rnd hr hnc m h
+
+/-- likewise: every stored reply is legal in a stored image with the entry's key, and book positions and all
+their images are answered -/
+theorem book_entries_legal_default (basis : Array W) {size : Nat} (hs : size ≤ 6)
+    {lines : List (List Tak.Move)} (hnp : ∀ line ∈ lines, ∀ m ∈ line, m.type ≠ Facts.mtPass) {book : Book}
+    (hb : buildOpeningBook basis size lines = .ok book) :
+    (∀ e ∈ book.entries, e.moves ≠ [] ∧ ∀ c ∈ e.moves, 0 < c.weight ∧
+      ∃ q₀, BookImg basis size lines q₀ ∧ q₀.hashOf = e.hash ∧ SLegal q₀ c.move) ∧
+    (∀ q, BookImg basis size lines q → ∃ e ∈ book.entries, e.hash = q.hashOf) :=
+  ⟨book_entries_legal (posFacts2_defaultD basis size hs).toPosFacts (imageFact_invD basis)
+    (linesOk_of (posFacts2_defaultD basis size hs).toPosFacts
+      (fun _ m hi hm => ⟨hm, stackLimit_of_budget m hi.2.1⟩) lines hnp) hb,
+   fun q hq => book_contains_images hb q hq⟩
 
 /-! ## the hypotheses are satisfiable: a concrete book (zero Zobrist basis) -/
 
